@@ -214,6 +214,21 @@ Theorem tan_rollover_error_fails_the_save : forall w, tan_write_result true w = 
 Proof. exact tan_rollover_error_fails. Qed.
 Print Assumptions tan_rollover_error_fails_the_save.
 
+(* THE ENGINE STOPS ON A LOG STORE ERROR (shape of engine.go / snapshotter.go, regenerated):
+   processSteps hands the error of SaveRaftState on, snapshotter.saveSnapshot hands the error
+   of SaveSnapshots on, and in every worker main loop (step, commit, apply, snapshot, close)
+   every `if err := ...; err != nil` ends in panicNow.  This is a statement about these code
+   shapes only; the behaviour - the process dies by a panic, no message leaves the host after
+   the failed save, nothing of the failed update is applied or reported completed, the hosts
+   come back with every completed proposal - is what the nhfail cases execute on real
+   NodeHosts over a log store whose k-th SaveRaftState / SaveSnapshots fails. *)
+Theorem engine_stops_on_store_error :
+  c10_process_steps_propagates_save_error = true /\
+  c10_snapshotter_propagates_save_snapshots_error = true /\
+  c10_engine_workers_panic_on_error = true.
+Proof. exact engine_stops_on_store_error_proved. Qed.
+Print Assumptions engine_stops_on_store_error.
+
 Example c10_example_tan_batch : tan_batch_sync [true; false; false] = true /\ tan_batch_sync [false; false] = false.
 Proof. vm_compute. split; reflexivity. Qed.
 
